@@ -12,7 +12,6 @@ import (
 	"github.com/prometheus/prometheus/model/labels"
 	"github.com/prometheus/prometheus/promql/parser"
 
-	"github.com/thanos-community/promql-engine/execution/function"
 	"github.com/thanos-community/promql-engine/execution/model"
 	"github.com/thanos-community/promql-engine/execution/parse"
 )
@@ -236,64 +235,62 @@ func makeAccumulatorFunc(expr parser.ItemType) (newAccumulatorFunc, error) {
 	case "stddev":
 		return func() *accumulator {
 			var count float64
-			var mean, cMean float64
-			var aux, cAux float64
+			var mean, aux float64
 			var hasValue bool
 			return &accumulator{
+				// The same incremental formula as Prometheus, so that groups with
+				// non-finite or overflowing members yield the same value.
 				AddFunc: func(v float64) {
 					hasValue = true
 					count++
 					if count == 1 {
-						// Same as Prometheus: the first sample only seeds the mean, so a
-						// group that consists of a single NaN or Inf has a deviation of 0.
+						// The first sample only seeds the mean, so a group that
+						// consists of a single NaN or Inf has a deviation of 0.
 						mean = v
 						return
 					}
-					delta := v - (mean + cMean)
-					mean, cMean = function.KahanSumInc(delta/count, mean, cMean)
-					aux, cAux = function.KahanSumInc(delta*(v-(mean+cMean)), aux, cAux)
+					delta := v - mean
+					mean += delta / count
+					aux += delta * (v - mean)
 				},
-				ValueFunc: func() float64 { return math.Sqrt((aux + cAux) / count) },
+				ValueFunc: func() float64 { return math.Sqrt(aux / count) },
 				HasValue:  func() bool { return hasValue },
 				Reset: func(_ float64) {
 					hasValue = false
 					count = 0
 					mean = 0
-					cMean = 0
 					aux = 0
-					cAux = 0
 				},
 			}
 		}, nil
 	case "stdvar":
 		return func() *accumulator {
 			var count float64
-			var mean, cMean float64
-			var aux, cAux float64
+			var mean, aux float64
 			var hasValue bool
 			return &accumulator{
+				// The same incremental formula as Prometheus, so that groups with
+				// non-finite or overflowing members yield the same value.
 				AddFunc: func(v float64) {
 					hasValue = true
 					count++
 					if count == 1 {
-						// Same as Prometheus: the first sample only seeds the mean, so a
-						// group that consists of a single NaN or Inf has a deviation of 0.
+						// The first sample only seeds the mean, so a group that
+						// consists of a single NaN or Inf has a deviation of 0.
 						mean = v
 						return
 					}
-					delta := v - (mean + cMean)
-					mean, cMean = function.KahanSumInc(delta/count, mean, cMean)
-					aux, cAux = function.KahanSumInc(delta*(v-(mean+cMean)), aux, cAux)
+					delta := v - mean
+					mean += delta / count
+					aux += delta * (v - mean)
 				},
-				ValueFunc: func() float64 { return (aux + cAux) / count },
+				ValueFunc: func() float64 { return aux / count },
 				HasValue:  func() bool { return hasValue },
 				Reset: func(_ float64) {
 					hasValue = false
 					count = 0
 					mean = 0
-					cMean = 0
 					aux = 0
-					cAux = 0
 				},
 			}
 		}, nil
